@@ -41,7 +41,7 @@ func deepCalls(fn *ssa.Function, depth int, seen map[*ssa.Function]bool) []ssa.C
 func C19(p *ir.Program, r *report.R) {
 	c := C{p, r}
 	r.Floor = 120
-	r.Explain = "Decided (Engler-style sibling cross-check over the matrix backend x method; equivalence with an ordered map over histories is ADDED after seeded-change testing: On-disk batch Write/Commit/WriteSync reach the shard flush loop (or the sibling they delegate to) on every path; iterator positioning tables for goleveldb and bolt (constructor and Seek): forward/nil First, forward/start Seek, reverse/nil Last, reverse/start Seek then Prev when past start and Last when off the end; PrefixToEnd truncates after the incremented byte. NOT decided): every backend / batch / iterator type implements the full DB / Batch / Iterator interface; key and value arguments are normalised with nonNilBytes before they reach the backend primitive, in every backend and method, directly or through the sibling the method delegates to (exemptions with reasons); twin methods inside a backend (Get~Load, Has~Exist, Set~Put~SetSync, Delete~Del~DeleteSync) reach the same primitive; batch atomicity shape: memBatch.write holds the database mutex around the whole loop and applies the operations in slice order; an on-disk batch must hand the whole batch to ONE atomic primitive — the sharded backends issue one write per shard from concurrent goroutines (known findings, relevant when db_counts > 1) and Commit assigns its error result from several goroutines; prefixDB routes every key through prefixed(key) and every batch key through the prefix; the shard of a key is a pure function of the key. Rounds 4-5: every batch Reset zeroes its counter; cpDecr returns nil on underflow; no write path sorts the queued operations with an unstable sort; prefixIterator.Next closes the source when it leaves the view; the prefixing rule is name-independent (what reaches the wrapped store is prefix ++ key). Round 6: the prefix operand of every prefixed key is a copy (cp), and no append in prefix_db.go lands on a view's own prefix slice, also through helper parameters. NOT decided: iterator order/bounds behaviour, reopen, atomicity on disk."
+	r.Explain = "Decided (Engler-style sibling cross-check over the matrix backend x method; equivalence with an ordered map over histories is ADDED after seeded-change testing: On-disk batch Write/Commit/WriteSync reach the shard flush loop (or the sibling they delegate to) on every path; iterator positioning tables for goleveldb and bolt (constructor and Seek): forward/nil First, forward/start Seek, reverse/nil Last, reverse/start Seek then Prev when past start and Last when off the end; PrefixToEnd truncates after the incremented byte. NOT decided): every backend / batch / iterator type implements the full DB / Batch / Iterator interface; key and value arguments are normalised with nonNilBytes before they reach the backend primitive, in every backend and method, directly or through the sibling the method delegates to (exemptions with reasons); twin methods inside a backend (Get~Load, Has~Exist, Set~Put~SetSync, Delete~Del~DeleteSync) reach the same primitive; batch atomicity shape: memBatch.write holds the database mutex around the whole loop and applies the operations in slice order; an on-disk batch must hand the whole batch to ONE atomic primitive — the sharded backends issue one write per shard from concurrent goroutines (known findings, relevant when db_counts > 1) and Commit assigns its error result from several goroutines; prefixDB routes every key through prefixed(key) and every batch key through the prefix; the shard of a key is a pure function of the key. Rounds 4-5: every batch Reset zeroes its counter; cpDecr returns nil on underflow; no write path sorts the queued operations with an unstable sort; prefixIterator.Next closes the source when it leaves the view; the prefixing rule is name-independent (what reaches the wrapped store is prefix ++ key). Round 6: the prefix operand of every prefixed key is a copy (cp), and no append in prefix_db.go lands on a view's own prefix slice, also through helper parameters. Round 7: cpIncr returns nil on overflow; memDBIterator.Close invalidates the iterator. NOT decided: iterator order/bounds behaviour, reopen, atomicity on disk."
 	r.Trusted = []string{"goleveldb, boltdb, badger (third-party)", "murmur3"}
 
 	dbI := p.Obj("libs/db", "DB").Type().Underlying().(*types.Interface)
